@@ -86,19 +86,19 @@ ALL_LAWS = ["AllWellFormed", "RoundTripLaw", "EqLaws", "MergeIsConcat", "MergeOp
 
 
 def mc(res, binary, label, base, fields, glob, steps, nobj=2, nest_at=0, nest_fields=(), laws=ALL_LAWS, bad_utf8=False,
-       wire_recs=(), max_recs=0, flavs=None, also=()):
+       wire_recs=(), max_recs=0, flavs=None, also=(), base_module="MC_PbObject", emit="Emit", replay="hist", keyf=None):
     """also: further harness binaries (other builds) on which the same tour is replayed"""
     schema = export_schema(binary, (base,))
     tour = os.path.join(scratch(), "obj-%s.tour" % label)
     c = cfg({"Type": '"%s"' % base, "Fields": tlaset(fields), "NestAt": nest_at, "NestFields": tlaset(nest_fields),
              "Global": tlaset('"%s"' % g for g in glob), "MaxSteps": steps, "NObj": nobj, "BadUtf8": "TRUE" if bad_utf8 else "FALSE",
              "MaxRecs": max_recs},
-            invariants=laws, emit="Emit", view="View") + "CONSTANT WireRecs <- WireRecsDef\n"
+            invariants=laws, emit=emit, view="View") + "CONSTANT WireRecs <- WireRecsDef\n"
     # tuples cannot be written in a cfg file: the record alphabet goes into a generated wrapper module
     modname = "MC_PbObject_" + "".join(ch if ch.isalnum() else "_" for ch in label)
     with open(os.path.join(vlib.spec_dir(), modname + ".tla"), "w") as fh:
-        fh.write("---- MODULE %s ----\nEXTENDS MC_PbObject\nWireRecsDef == %s\n====\n" % (
-            modname, tlaset("<<" + ",".join(str(x) for x in r) + ">>" for r in wire_recs)))
+        fh.write("---- MODULE %s ----\nEXTENDS %s\nWireRecsDef == %s\n====\n" % (
+            modname, base_module, tlaset("<<" + ",".join(str(x) for x in r) + ">>" for r in wire_recs)))
     r = tlc(modname, c, emit_to=tour, env={"SCHEMA": schema}, timeout=3000)
     res.add_tlc(r, "%s: %s fields %s nest %s/%s ops %s depth %d objs %d laws %s" % (
         label, base, list(fields), nest_at, list(nest_fields), sorted(glob), steps, nobj, laws))
@@ -109,8 +109,8 @@ def mc(res, binary, label, base, fields, glob, steps, nobj=2, nest_at=0, nest_fi
             for l in lines:
                 fh.write(json.dumps(dict(l, type=tname, dyn=dyn)) + "\n")
         for bi, bb in enumerate((binary,) + tuple(also)):
-            replay_tour(res, bb, "hist", fp,
-                        key=lambda e: [bi, e["type"], e["dyn"], e["steps"][-1]["op"], e["steps"][-1].get("f", 0), len(e["steps"])])
+            replay_tour(res, bb, replay, fp,
+                        key=keyf or (lambda e: [bi, e["type"], e["dyn"], e["steps"][-1]["op"], e["steps"][-1].get("f", 0), len(e["steps"])]))
         os.remove(fp)
     res.exhaustive = True
     return r
@@ -492,3 +492,74 @@ def c47(res, tier, seed):
                 "type id, ill-formed payload, foreign fields) decoded, re-marshaled, sized and compared, on the generated fast path and the "
                 "reflection path of a -tags protolegacy build and on all API flavours; driver: random histories on MessageSet and container types "
                 "in both builds; every Marshal output is parsed by the specification's item-format decoder; distinct = (build, flavour, operation)")
+
+
+# ============================================================================ C20, C24: protojson / prototext round trips
+for _p in ("C20", "C24"):
+    MODULE_OF[_p] = "codec"
+    HARNESS_PKGS[_p] = PKG
+
+
+def codec_run(res, b, seed, n, fmt):
+    schema = det_schema(b)
+    gen = os.path.join(scratch(), "codec-%s-gen.ndjson" % fmt); tr = os.path.join(scratch(), "codec-%s-trace.ndjson" % fmt)
+    harness(b, ["gen", "codec", seed, 2 * n, gen])
+    keep = [json.dumps(c) for c in read_ndjson(gen) if c["fmt"] == fmt]
+    with open(gen, "w") as fh:
+        fh.write("\n".join(keep) + "\n")
+    harness(b, ["exec", "codec", gen, tr])
+    t0 = time.time()
+    total, bad = validate_trace("Trace_PbTextCodecs", tr, shards=3, env={"SCHEMA": schema}, timeout=3000)
+    log("validated %d %s round trips in %.1fs: %d rejected" % (total, fmt, time.time() - t0, len(bad)))
+    events = list(read_ndjson(tr))
+    for i, ev in enumerate(events):
+        res.distinct.add(json.dumps([ev["fmt"], ev["type"], ev["dyn"], ev["opts"]]))
+        if i % 301 == 0:
+            res.sample(json.dumps({k: v for k, v in ev.items() if k != "out"})[:900])
+    for i in bad:
+        res.fail(dict(events[i], _module="codec", _trace="Trace_PbTextCodecs"), "trace: PbTextCodecs rejects the recorded round trip")
+    res.trace_events += total; res.evaluations += total; res.traces += 1
+
+
+def codec_check(res, tier, seed, fmt, fields_te, fields_t3):
+    b = build_harness(PKG)
+    keyf = lambda e: [e["fmt"], e["type"], e["dyn"], e["opts"], len(json.dumps(e["lit"])) // 40]
+    def only(fmt_):
+        return lambda e: keyf(e)
+    mc(res, b, "codec-te-" + fmt, BASE_TE, fields_te, ["reset"], 2, nobj=1, nest_at=18, nest_fields=[1], base_module="MC_PbCodecTour",
+       emit="EmitCodec", replay="codec", keyf=keyf, laws=["AllWellFormed", "StripLaw"], bad_utf8=True)
+    mc2(tier, res, b, "codec-t3-" + fmt, BASE_T3, fields_t3, ["reset"], 2, nobj=1, base_module="MC_PbCodecTour", emit="EmitCodec",
+        replay="codec", keyf=keyf, laws=["AllWellFormed", "StripLaw"], bad_utf8=True)
+    codec_run(res, b, seed, 700 if tier == "quick" else 30000, fmt)
+    res.rule = ("tour: every content reachable in the bounded object machine, under a spread of option masks, with the specification's expected "
+                "round-trip content (unknown fields stripped) or UTF-8 error, replayed on all flavours; driver: random contents of 20 corpus "
+                "types x random option masks validated by Trace_PbTextCodecs; distinct = (format, type, flavour, option mask[, size class])")
+    return b
+
+
+@check("C20")
+def c20(res, tier, seed):
+    codec_check(res, tier, seed, "json", [1, 2, 11, 12, 14, 15, 21, 31, 44, 69, 71, 112, 124], [1, 81, 92, 94, 31, 69, 112])
+    res.notes.append("the MC tour emits both formats; well-known-type JSON forms, Any, FieldMask, Struct are decided by C23; JSON grammar by C21")
+
+
+@check("C24")
+def c24(res, tier, seed):
+    b = codec_check(res, tier, seed, "text", [1, 11, 12, 14, 15, 16, 21, 31, 41, 44, 69, 112], [81, 91, 92, 94, 31, 69, 112])
+    # float32: Parse(Format(bits)) = Canon(bits) through the real prototext encoder/decoder (uninterpreted pair, DESIGN 6)
+    n = (1 << 16) if tier == "quick" else (1 << 24)
+    if os.environ.get("VERIF_FULL_FLOAT32"):
+        n = 1 << 32
+    inp = os.path.join(scratch(), "f32.in")
+    chunks = 16
+    with open(inp, "w") as fh:
+        for k in range(chunks):
+            fh.write(json.dumps({"fmt": "f32", "chunk": k, "chunks": chunks, "n": n // chunks, "seed": seed}) + "\n")
+    harness(b, ["exec", "codec", inp, inp + ".out"], timeout=20000)
+    swept = 0
+    for ev in read_ndjson(inp + ".out"):
+        swept += ev["out"]["swept"]
+        for bits in ev["out"]["fails"]:
+            res.fail(dict(fmt="f32bits", bits=bits, _module="codec"), "float32 bit pattern does not survive prototext Marshal/Unmarshal")
+    res.extra["float32_patterns_swept"] = swept
+    res.evaluations += swept
